@@ -5,5 +5,5 @@ PROPS = {
     "C15": p_matrix.run, "C16": p_matrix.run,
     "C12": p_misc.run_c12, "C20": p_misc.run_c20,
     "C17": p_api.run, "C18": p_api.run,
-    "C13": p_flow.run, "C14": p_flow.run, "C19": p_flow.run,
+    "C13": p_sample.run, "C14": p_flow.run, "C19": p_flow.run,
 }
